@@ -930,6 +930,7 @@ func main() {
 	p.translateFunc(o, "newFormatSpec", "newFormatSpec",
 		[]leanParam{{"precision", "Int"}, {"precisionOk", "Bool"}}, map[string]bool{"state": true})
 	p.translateFunc(o, "printerSettings.digitCountWidth", "digitCountWidth", nil, nil)
+	p.emitGapLoopFact(o)
 	o.line("")
 	p.emitFacts(o)
 	o.line("")
@@ -1004,4 +1005,48 @@ func (p *pkgInfo) emitRunEndTest(o *out) {
 	}
 	e := &intEnv{p: p, o: o, ctx: "memoizer.run end test", fields: map[string]bool{}}
 	o.line("def runEndTest (x : Int) : Bool := %s", e.expr(cond, scope{varName: "x"}))
+}
+
+// emitGapLoopFact: does the gap-filling loop of printer.Consume re-check the error state?
+// (`for p.index < posit && p.CanConsume()`; without it a latched write error spins for ever)
+func (p *pkgInfo) emitGapLoopFact(o *out) {
+	fd := p.funcs["printer.Consume"]
+	if fd == nil {
+		o.problem("printer.Consume not found")
+		o.line("def gapLoopChecksErr : Bool := false")
+		return
+	}
+	found, checks := false, false
+	ast.Inspect(fd.Body, func(n ast.Node) bool {
+		fs, ok := n.(*ast.ForStmt)
+		if !ok || fs.Cond == nil {
+			return true
+		}
+		found = true
+		src := p.src(fs.Cond)
+		if strings.Contains(src, "CanConsume()") || strings.Contains(src, ".err == nil") {
+			checks = true
+		}
+		// a break / return on error inside the body counts as well
+		ast.Inspect(fs.Body, func(m ast.Node) bool {
+			if is, ok := m.(*ast.IfStmt); ok {
+				c := p.src(is.Cond)
+				if strings.Contains(c, "CanConsume()") || strings.Contains(c, ".err != nil") || strings.Contains(c, ".err == nil") {
+					ast.Inspect(is.Body, func(k ast.Node) bool {
+						switch k.(type) {
+						case *ast.BranchStmt, *ast.ReturnStmt:
+							checks = true
+						}
+						return true
+					})
+				}
+			}
+			return true
+		})
+		return false
+	})
+	if !found {
+		o.problem("printer.Consume: gap loop not recognised")
+	}
+	o.line("def gapLoopChecksErr : Bool := %v", checks)
 }
